@@ -124,9 +124,12 @@ def check_instant(t, res, zone):
     if decode7(r) != t:
         bad('DirectoryRecordDate', 'recorded timestamp denotes its instant', 'decodes to %d (off by %d s)' % (decode7(r), decode7(r) - t))
     d2 = dates.DirectoryRecordDate()
-    d2.parse(r)
-    if d2.record() != r:
-        bad('DirectoryRecordDate', 'parse then record is the identity', '%r -> %r' % (r, d2.record()))
+    try:
+        d2.parse(r)
+        if d2.record() != r:
+            bad('DirectoryRecordDate', 'parse then record is the identity', '%r -> %r' % (r, d2.record()))
+    except Exception as e:
+        bad('DirectoryRecordDate', 'parse then record is the identity', 'the library cannot parse what it recorded: %s: %s' % (type(e).__name__, e))
     # 17-byte volume descriptor date
     v = dates.VolumeDescriptorDate()
     v.new(float(t))
@@ -135,9 +138,12 @@ def check_instant(t, res, zone):
     if decode17(r) != t:
         bad('VolumeDescriptorDate', 'recorded timestamp denotes its instant', 'decodes to %d (off by %d s)' % (decode17(r), decode17(r) - t))
     v2 = dates.VolumeDescriptorDate()
-    v2.parse(r)
-    if v2.record() != r:
-        bad('VolumeDescriptorDate', 'parse then record is the identity', '%r -> %r' % (r, v2.record()))
+    try:
+        v2.parse(r)
+        if v2.record() != r:
+            bad('VolumeDescriptorDate', 'parse then record is the identity', '%r -> %r' % (r, v2.record()))
+    except Exception as e:
+        bad('VolumeDescriptorDate', 'parse then record is the identity', 'the library cannot parse what it recorded: %s: %s' % (type(e).__name__, e))
     # Rock Ridge TF: both forms
     for flags, width, dec in ((0x0e, 7, decode7), (0x8e, 17, decode17)):
         tf = rockridge.RRTFRecord()
@@ -154,9 +160,12 @@ def check_instant(t, res, zone):
                     bad('RRTFRecord/%d' % width, 'recorded timestamp denotes its instant', 'decodes to %d (off by %d s)' % (dec(x), dec(x) - t))
                     break
         tf2 = rockridge.RRTFRecord()
-        tf2.parse(r)
-        if tf2.record() != r:
-            bad('RRTFRecord/%d' % width, 'parse then record is the identity', 'differs')
+        try:
+            tf2.parse(r)
+            if tf2.record() != r:
+                bad('RRTFRecord/%d' % width, 'parse then record is the identity', 'differs')
+        except Exception as e:
+            bad('RRTFRecord/%d' % width, 'parse then record is the identity', 'the library cannot parse what it recorded: %s: %s' % (type(e).__name__, e))
     # UDF timestamp
     u = udf.UDFTimestamp()
     u.new(float(t))
@@ -166,9 +175,12 @@ def check_instant(t, res, zone):
     if got != t:
         bad('UDFTimestamp', 'recorded timestamp denotes its instant', 'decodes to %s (off by %s s)' % (got, got - t if isinstance(got, int) else '?'))
     u2 = udf.UDFTimestamp()
-    u2.parse(r)
-    if u2.record() != r:
-        bad('UDFTimestamp', 'parse then record is the identity', '%r -> %r' % (r, u2.record()))
+    try:
+        u2.parse(r)
+        if u2.record() != r:
+            bad('UDFTimestamp', 'parse then record is the identity', '%r -> %r' % (r, u2.record()))
+    except Exception as e:
+        bad('UDFTimestamp', 'parse then record is the identity', 'the library cannot parse what it recorded: %s: %s' % (type(e).__name__, e))
     return out
 
 
